@@ -56,6 +56,7 @@ import re
 import time
 
 import core
+import size_c16 as sz
 from lts import LTS, skey, strip
 
 MANIFEST = dict(
@@ -67,14 +68,18 @@ MANIFEST = dict(
 W = int(os.environ.get("VERIF_TLC_WORKERS", "8"))
 # debugging aid: run only some binding legs (all by default), e.g. VERIF_C16_LEGS=trace
 LEGS = set(os.environ.get("VERIF_C16_LEGS", "match,doc,cache,memo,find,trace").split(","))
-JOPTS = ["-XX:ParallelGCThreads=2"]      # 16 GC threads cost more than they give on these small heaps
+JOPTS = ["-XX:ParallelGCThreads=2", "-Xss64m"]      # 16 GC threads cost more than they give on these small heaps
 
 STAR, QM, BS, LF = 42, 63, 92, 10
 # concrete literal characters: regex metacharacters, punctuation, non-ASCII, case pairs, non-BMP
 LIT_POOL = list(".+()[]{}$^|-#&~<>=,:;!@%\"'`_/") + list("aZ09bB") + \
     ["\u00e9", "\u00c9", "\u00df", "\u1e9e", "\u017f", "s", "S", "k", "K", "\u212a", "\u4e2d", "\U0001d4b3",
      "\x7f", "\u0130", "i", "\u0131", "I", "\u00b5", "\u03bc"]
-CASE_PAIRS = [("k", "K"), ("K", "k"), ("s", "\u017f"), ("\u00e9", "\u00c9"), ("K", "\u212a"), ("z", "Z")]
+LIT_POOL += ["\u212b", "\u00c5", "\u2126", "\u03a9", "\uf9d0", "\u985e", "\ufb01", "\uff21", "\u0301", "\u1100", "\ufeff",
+             "\u200d", "\u200c", "\u00ad", "\u200e", "\u200b", "\U0001f600", "\U0010ffff", "\u03c2", "\u03c3", "\U00010400"]
+# (not NFC/NFKC-stable, its twin) and case hazards: as DIFFERENT literals a, b of one case
+CASE_PAIRS = [("\u212b", "\u00c5"), ("\u2126", "\u03a9"), ("\uf9d0", "\u985e"), ("\uff21", "A"), ("\u0130", "i"), ("\u03c2", "\u03c3"),
+              ("\u00df", "\u1e9e"), ("\U00010400", "\U00010428")] + [("k", "K"), ("K", "k"), ("s", "\u017f"), ("\u00e9", "\u00c9"), ("K", "\u212a"), ("z", "Z")]
 assert all(not c.isspace() and c not in "*?\\" for c in LIT_POOL) and len(set(LIT_POOL)) == len(LIT_POOL)
 
 
@@ -183,6 +188,7 @@ def rand_seps(rng, npat, textual):
 
 # ------------------------------------------------------------------ driving the real code
 
+TEXTUAL = ("text", "lines", "bytes")
 HEADER = "Format: https://www.debian.org/doc/packaging-manuals/copyright-format/1.0/\n"
 LICPARA = "License: MIT\n Permission is hereby granted.\n"
 
@@ -196,13 +202,15 @@ def build_doc(route, paras, order, lays):
     """paras: list of lists of pattern strings; order: sequence of paragraph indexes and 'L'
     (standalone License paragraphs in between). Returns the Copyright object."""
     from debian import copyright as C
-    if route in ("text", "lines"):
+    if route in TEXTUAL:
         parts = [HEADER]
         for it in order:
             parts.append(LICPARA if it == "L" else files_para_text(paras[it], lays[it]))
         text = "\n".join(parts)
         if route == "lines":
             return C.Copyright([ln + "\n" for ln in text.split("\n")])
+        if route == "bytes":
+            return C.Copyright([(ln + "\n").encode("utf-8") for ln in text.split("\n")])
         return C.Copyright(io.StringIO(text))
     c = C.Copyright()
     for it in order:
@@ -297,6 +305,84 @@ def obs_query(rx, name):
         return "match" if rx.fullmatch(name) is not None else "nomatch"
     except Exception as e:
         return "EXC:" + type(e).__name__
+
+
+SIZE_LITERALS = [97, 98, 47, 46]
+
+
+def check_size_case(ps, ok, mset, names, sc, route, lay, direct=False):
+    """one abstract case under a size-stressed concretization (size_c16: blocks + fillers); the expectation
+    is TLC's for the abstract case.  Returns None or (name, expected, observed)"""
+    pats = sc.patterns(ps)
+    if direct:
+        got, rx = obs_translate(pats)
+        if got != ("ok" if ok else "FormatError"):
+            return (None, "ok" if ok else "FormatError", got)
+        if rx is None:
+            return None
+    else:
+        try:
+            para = build_para(route, pats, lay)
+        except Exception as e:
+            if not ok and isinstance(e, ValueError):
+                return None
+            return (None, "a Files paragraph with %d patterns" % len(pats), "construction failed: %s: %s" % (type(e).__name__, str(e)[:200]))
+    for nm in names:
+        exp = "FormatError" if not ok else ("match" if nm in mset else "nomatch")
+        got = obs_query(rx, sc.name(nm)) if direct else obs_match(para, sc.name(nm))
+        if got != exp:
+            return (list(nm), exp, got)
+    return None
+
+
+def check_size_doc(d, fexp, sc, positions, fillers, route, lays):
+    """an abstract document inflated with filler paragraphs (size_c16, argument 2): the abstract paragraph k
+    sits at position positions[k-1] (1-based) of the real document.  Returns None or (name, expected, observed)"""
+    total = len(d) + len(fillers)
+    paras = []
+    fi = iter(fillers)
+    at = {pos: k for k, pos in enumerate(positions)}
+    for i in range(1, total + 1):
+        paras.append(sc.patterns(d[at[i]]) if i in at else next(fi))
+    try:
+        c = build_doc(route, paras, list(range(total)), lays)
+        nfiles = len(list(c.all_files_paragraphs()))
+    except Exception as e:
+        if isinstance(e, ValueError) and any(x[1] == -1 for x in fexp):
+            return None
+        return (None, "a document with %d Files paragraphs" % total, "construction failed: %s: %s" % (type(e).__name__, str(e)[:200]))
+    if nfiles != total:
+        return (None, "%d Files paragraphs" % total, "document shows %d" % nfiles)
+
+    def pos(k):
+        return positions[k - 1] if k > 0 else k
+
+    for nm, strict, lenient in fexp:
+        got = obs_find(c, sc.name(nm))
+        if got != pos(strict) and not (strict == -1 and got == pos(lenient)):
+            return (list(nm), pos(strict) if strict != -1 else "ValueError (or %d)" % pos(lenient), got)
+    return None
+
+
+def brief(x, n=60):
+    """long strings in messages: head ... tail and the length"""
+    if isinstance(x, (list, tuple)):
+        if len(x) > 8:
+            return "[%s, ... %d patterns ..., %s]" % (brief(x[0], 30), len(x), brief(x[-1], 30))
+        return "[" + ", ".join(brief(y, n) for y in x) + "]"
+    return repr(x) if len(x) <= n else "%r...%r(len %d)" % (x[:n // 2], x[-n // 2:], len(x))
+
+
+def size_report_text(sc, ps, route, nm, exp, got, direct):
+    pats = sc.patterns(ps)
+    real = [sc.pattern(p) for p in ps]
+    joined = sum(len(p) for p in pats) + len(pats) - 1
+    return ("size-stressed case: %s with %d patterns (blank-joined length %d; block length %d; the abstract patterns %s are "
+            "number %d..%d of the list as %s)%s: %s -> %s, specification (GlobMatch on the abstract case) says %s"
+            % ("globs_to_re called" if direct else "Files paragraph (%s)" % route, len(pats), joined, sc.L,
+               [cstr({}, p) for p in ps], len(sc.fill_before) + 1, len(sc.fill_before) + len(ps), brief(real),
+               "" if nm is None else ", name %s built from abstract name %r" % (brief(sc.name(nm)), cstr({}, nm)),
+               "construction" if nm is None else ("fullmatch" if direct else "matches()"), got, exp))
 
 
 def check_direct_case(ps, ok, mset, names, cmap):
@@ -566,9 +652,13 @@ def rand_name(rng, pats, nalpha):
     return s
 
 
-def rand_script(rng, nops):
-    """a random history: document + calls, over a per-trace alphabet"""
+def rand_script(rng, nops, big=False):
+    """a random history: document + calls, over a per-trace alphabet.  big: size dimension for the parts TLC
+    treats structurally -- up to 200 (short) patterns per list, blank-joined lengths far beyond one line,
+    hyphenated words; or 100 paragraphs.  What TLC scans character by character stays short."""
     alpha = rng.sample(LIT_POOL, rng.randint(2, 4)) + rng.sample(["a", "b", "/", "."], 2)
+    if big:
+        alpha = ["a", "b", "c", "d", "-", "-", "/", "."] + rng.sample(LIT_POOL, 2)
     if rng.random() < 0.3:
         a, b = rng.choice(CASE_PAIRS)
         alpha += [a, b]
@@ -580,12 +670,25 @@ def rand_script(rng, nops):
         bad = rng.random() < 0.08
         injected[0] = injected[0] or bad
         k = rng.randint(1, 4)
+        if big and not many_paras:
+            k = sz.pick(rng, sz.COUNTS[3:], 200)
         b = rng.randrange(k) if bad else -1
-        return [rand_pattern(rng, alpha, rng.choice([2, 4, 6, 9]), i == b) for i in range(k)]
+        out = [rand_pattern(rng, alpha, rng.choice([2, 4, 6, 9] if not big else [3, 5, 7, 9]), i == b) for i in range(k)]
+        if big:         # mostly hyphenated / dotted words, as in real Files fields
+            for i in range(k):
+                if i != b and rng.random() < 0.6:
+                    w = ["".join(rng.choice("abcd") for _ in range(rng.randint(1, 4))) for _ in range(rng.randint(2, 3))]
+                    out[i] = rng.choice(["-", "-", "."]).join(w) + rng.choice(["", "/*", "*", "?"])
+        return out
 
+    many_paras = big and rng.random() < 0.25
     npar = rng.choice([1, 1, 2, 3, 4])
+    if big:
+        npar = rng.choice([99, 100, 101]) if many_paras else rng.choice([1, 1, 2])
     paras = [plist() for _ in range(npar)]
-    route = rng.choice(["prog", "prog-set", "text", "text", "lines"])
+    route = rng.choice(["prog", "prog-set", "text", "text", "lines", "bytes"])
+    if big:
+        route = rng.choice(["prog", "prog-set", "prog", "prog-set", "text", "bytes"])
     order = []
     for k in range(npar):
         if rng.random() < 0.3:
@@ -593,9 +696,14 @@ def rand_script(rng, nops):
         order.append(k)
     if rng.random() < 0.3:
         order.append("L")
-    lays = [rand_seps(rng, len(ps), route in ("text", "lines")) for ps in paras]
+    lays = [rand_seps(rng, len(ps), route in TEXTUAL) for ps in paras]
     ops = []
     cur = [list(ps) for ps in paras]
+    if big and not many_paras:          # every pattern of a long list is asked for once: the i-th of n matches
+        for k, ps in enumerate(paras):
+            for pat in (ps if len(ps) <= 40 else rng.sample(ps, 40)):
+                ops.append(["matches", k, instantiate(rng, pat, nalpha)])
+        nops += len(ops)
     held = None                         # list last handed to globs_to_re directly
     pending = []                        # direct translations still to be issued (other order of a colliding pair)
     while len(ops) < nops:
@@ -883,6 +991,8 @@ def run(ctx):
     routes = ["prog", "text", "prog-set", "lines"]
     n_lists = n_pairs = 0
     sampled = set()
+    size_every, size_phase = (22, 3) if quick else (4, 1)     # one size-stressed concretization per that many cases
+    n_size, n_huge, max_huge = [0], [0], (4 if quick else 40)
     for ename, names in (emissions if "match" in LEGS else []):
         cases = res[ename].printed.get("CASE", [])
         if not cases:
@@ -912,6 +1022,36 @@ def run(ctx):
                                "globs_to_re(%r)%s -> %s, specification (GlobMatch) says %s"
                                % (pats, "" if nm is None else ".fullmatch(%r)" % cstr(cmap, nm), got, exp))
                         break
+            nonempty = all(len(p) > 0 for p in ps)
+            if nonempty and (idx % size_every == size_phase):
+                # size / character stress: the same abstract case with long blocks, many patterns, boundary lengths
+                n_size[0] += 1
+                has_qm = any(QM in p for p in ps)
+                if n_size[0] % 40 == 7 and n_huge[0] < max_huge and len(ps) <= 2:
+                    mode = "huge"
+                    n_huge[0] += 1
+                else:
+                    mode = "fill" if n_size[0] % 2 else "block"
+                sc = sz.size_conc(rng, SIZE_LITERALS, mode, len(ps), has_qm)
+                if mode == "fill":
+                    sz.hit_joined(rng, sc, ps)
+                as_direct = not representable(ps)
+                route = rng.choice(["prog", "prog", "prog-set", "prog-set", "text", "lines", "bytes"])
+                lay = rand_seps(rng, len(sc.patterns(ps)), route in TEXTUAL)
+                if sc.L > 64:
+                    hit = [nm for nm in names if nm in mset]
+                    sub = rng.sample(names, min(len(names), 10 if mode != "huge" else 4)) + rng.sample(hit, min(len(hit), 4 if mode != "huge" else 2))
+                else:
+                    sub = names
+                bad = check_size_case(ps, ok, mset, sub, sc, route, lay, direct=as_direct)
+                n_pairs += len(sub)
+                stats["size_cases_" + mode] = stats.get("size_cases_" + mode, 0) + 1
+                if bad:
+                    nm, exp, got = bad
+                    report({"kind": "size", "ps": [list(p) for p in ps], "ok": ok, "name": nm, "expected": exp,
+                            "sc": sc.to_json(), "route": route, "lay": lay, "direct": as_direct},
+                           size_report_text(sc, ps, route, nm, exp, got, as_direct))
+                    continue
             if not representable(ps):
                 if not direct:
                     check_unrepresentable(ctx, ps, ok, mset, names, stats)
@@ -923,7 +1063,7 @@ def run(ctx):
                 plan = [("canon", "prog"), ("rand", routes[idx % 4])]
             for kind, route in plan:
                 cmap = conc_map(rng, kind)
-                lay = rand_seps(rng, len(ps), route in ("text", "lines"))
+                lay = rand_seps(rng, len(ps), route in TEXTUAL)
                 bad = check_match_case(ps, ok, mset, names, cmap, route, lay)
                 n_pairs += len(names)
                 if bad:
@@ -949,6 +1089,8 @@ def run(ctx):
     if not docs:
         raise core.MachineryError("no DOC lines")
     n_docs = n_finds = 0
+    doc_size_every = 25 if quick else 8
+    n_bigdoc, n_kdoc, max_kdoc = [0], [0], (2 if quick else 12)
     droutes = ["prog", "text", "lines", "prog-set"]
     for idx, dc in enumerate(docs if "doc" in LEGS else []):
         if nviol[0] >= 5:
@@ -968,7 +1110,7 @@ def run(ctx):
                 if rng.random() < 0.25:
                     order.append("L")
                 order.append(k)
-            lays = [rand_seps(rng, len(ps), route in ("text", "lines")) for ps in d]
+            lays = [rand_seps(rng, len(ps), route in TEXTUAL) for ps in d]
             bad = check_doc_case(d, fexp, cmap, route, order, lays)
             n_finds += len(fexp)
             if bad:
@@ -981,6 +1123,35 @@ def run(ctx):
                        "(index of the last matching paragraph, 0 = None)"
                        % (paras, route, None if nm is None else cstr(cmap, nm), got, exp))
                 break
+        if idx % doc_size_every == 5 and nviol[0] < 5:
+            # the same abstract document among 10 / 100 / 1000 Files paragraphs, with inflated pattern lists
+            n_bigdoc[0] += 1
+            if n_bigdoc[0] % 12 == 3 and n_kdoc[0] < max_kdoc:
+                total = rng.choice([999, 1000, 1001])
+                n_kdoc[0] += 1
+            else:
+                total = sz.pick(rng, [3, 9, 10, 11, 16, 17, 31, 32, 33, 99, 100, 101, 255, 256, 257], 257 if not quick else 101)
+            total = max(total, len(d))
+            sc = sz.size_conc(rng, SIZE_LITERALS, rng.choice(["fill", "block"]), 2, any(QM in p for ps in d for p in ps))
+            if sc.L > 129:
+                sc.pad = sc.pad[:rng.choice([63, 64, 79, 128])]
+            positions = sorted(rng.sample(range(1, total + 1), len(d)))
+            fillers = sz.filler_paragraphs(rng, total - len(d))
+            route = rng.choice(["prog", "prog-set", "text", "lines", "bytes"])
+            lays = [rand_seps(rng, 250, route in TEXTUAL) for _ in range(total)]
+            bad = check_size_doc(d, fexp, sc, positions, fillers, route, lays)
+            n_finds += len(fexp)
+            stats["size_documents"] = stats.get("size_documents", 0) + 1
+            stats["size_documents_max_paragraphs"] = max(stats.get("size_documents_max_paragraphs", 0), total)
+            if bad:
+                nm, exp, got = bad
+                report({"kind": "sizedoc", "doc": [[list(p) for p in ps] for ps in d], "f": [[list(a), b, c] for a, b, c in fexp],
+                        "sc": sc.to_json(), "positions": positions, "fillers": fillers, "route": route, "lays": lays},
+                       "size-stressed document (%s): %d Files paragraphs, the abstract paragraphs %r sit at positions %r "
+                       "(all others cannot match: their patterns start with %r), block length %d: find_files_paragraph(%s) "
+                       "-> %s, specification says %s (position of the last matching paragraph, 0 = None)"
+                       % (route, total, [[cstr({}, p) for p in ps] for ps in d], positions, sz.FILL, sc.L,
+                          None if nm is None else brief(sc.name(tuple(nm))), got, exp))
         if idx >= len(docs) // 2 and "doc" not in sampled and len({x[1] for x in fexp}) > 2 and all(x[1] >= 0 for x in fexp):
             sampled.add("doc")
             ctx.sample("DOC %r expected (name, index) %r" % ([[cstr({}, p) for p in ps] for ps in d],
@@ -1156,13 +1327,13 @@ def run(ctx):
         nonlocal n_fh
         start = gf.states[sk]
         cmap = conc_map(rng, rng.choice(["canon", "rand", "case"]))
-        route = rng.choice(["prog", "text", "lines", "prog-set"])
+        route = rng.choice(["prog", "text", "lines", "prog-set", "bytes"])
         order = []
         for k in range(len(start)):
             if rng.random() < 0.2:
                 order.append("L")
             order.append(k)
-        lays = [rand_seps(rng, len(ps), route in ("text", "lines")) for ps in start]
+        lays = [rand_seps(rng, len(ps), route in TEXTUAL) for ps in start]
         msg = run_find_path(start, path, cmap, route, order, lays)
         ctx.case_seen(tag, True)
         n_fh += 1
@@ -1191,10 +1362,12 @@ def run(ctx):
     t_cache = time.time()
     # ---- 5. code -> spec: recorded histories validated by TLC
     ntr, nops = (260, 18) if quick else (4000, 30)
+    big_every = 20 if quick else 12
     traces = []
     skipped = 0
     for _ in range(ntr if "trace" in LEGS else 0):
-        t, why = execute(rand_script(rng, nops))
+        isbig = len(traces) % big_every == 1
+        t, why = execute(rand_script(rng, 14 if isbig else nops, big=isbig))
         if t is None and why == "eager":
             stats["histories_ending_in_eager_format_error"] = stats.get("histories_ending_in_eager_format_error", 0) + 1
         elif t is None:
@@ -1262,6 +1435,23 @@ def replay(ctx, case):
         got = obs_match(para, cstr(cmap, case["name"]))
         if got != case["expected"]:
             return "Files %r: matches(%r) -> %s, specification says %s" % (pats, cstr(cmap, case["name"]), got, case["expected"])
+        return None
+    if kind == "size":
+        sc = sz.SizeConc.from_json(case["sc"])
+        ps = [tuple(p) for p in case["ps"]]
+        nm = None if case["name"] is None else tuple(case["name"])
+        names = [] if nm is None else [nm]
+        mset = {nm} if case["expected"] == "match" else set()
+        bad = check_size_case(ps, case["ok"], mset, names, sc, case["route"], case["lay"], direct=case["direct"])
+        if bad:
+            return size_report_text(sc, ps, case["route"], bad[0], bad[1], bad[2], case["direct"])
+        return None
+    if kind == "sizedoc":
+        d = [[tuple(p) for p in ps] for ps in case["doc"]]
+        fexp = [(tuple(a), b, c) for a, b, c in case["f"]]
+        bad = check_size_doc(d, fexp, sz.SizeConc.from_json(case["sc"]), case["positions"], case["fillers"], case["route"], case["lays"])
+        if bad:
+            return "find_files_paragraph(name built from %r) -> %s, specification says %s" % (bad[0], bad[2], bad[1])
         return None
     if kind == "direct":
         cmap = unjmap(case["cmap"])
